@@ -236,7 +236,21 @@ impl SizeSerializer {
 // ================================================================ the value-tree serializer (value/ser.rs): same marker discipline
 pub struct ValueSerializer { pub non_native_type: Option<NonNativeType> }
 /// the part of `Value` these functions build
-pub enum Value { String(String), Symbol(SymbolS), Other }
+pub enum Value { String(String), Symbol(SymbolS), Long(i64), Timestamp(i64), Binary(Seq<u8>), Decimal32(Seq<u8>), Decimal64(Seq<u8>), Decimal128(Seq<u8>), Uuid(Seq<u8>), Other }
+#[verifier::external_body]
+pub fn timestamp_value(v: i64) -> (r: Value) ensures r == Value::Timestamp(v) { unimplemented!() }
+#[verifier::external_body]
+pub fn binary_value(v: &[u8]) -> (r: Value) ensures r == Value::Binary(v@) { unimplemented!() }
+/// Dec32 / Dec64 / Dec128 / Uuid ::try_from(&[u8]): succeed exactly on the right length (4 / 8 / 16 / 16 octets)
+#[verifier::external_body]
+pub fn fixed_value(kind: u8, v: &[u8]) -> (r: Result<Value, VError>)
+    ensures r is Ok ==> r->Ok_0 == (if kind == 0 { Value::Decimal32(v@) } else if kind == 1 { Value::Decimal64(v@) } else if kind == 2 { Value::Decimal128(v@) } else { Value::Uuid(v@) }),
+{ unimplemented!() }
+/// LazyValue: the bytes are an encoded value, decoded by the slice deserializer (not under contract here)
+#[verifier::external_body]
+pub fn lazy_to_value(v: &[u8]) -> (r: Result<Value, VError>) { unimplemented!() }
+pub trait ErrInto<T>: Sized { spec fn conv(self) -> T; fn err_into(self) -> (r: T) ensures r == self.conv(); }
+impl ErrInto<VError> for VError { open spec fn conv(self) -> VError { self } fn err_into(self) -> (r: VError) { let e = self; assert(e == <VError as ErrInto<VError>>::conv(self)); e } }
 pub struct SymbolS { pub s: Ghost<Seq<char>> }
 #[verifier::external_body]
 pub fn string_from(v: &str) -> (r: String) ensures r@ == v@ { unimplemented!() }
@@ -256,6 +270,40 @@ impl ValueSerializer {
         r is Ok && old(self).non_native_type is None ==> r->Ok_0 is String && r->Ok_0->String_0@ == v@,      // [C20.value.str]
         r is Ok && is_symbol(old(self).non_native_type) ==> r->Ok_0 is Symbol && r->Ok_0->Symbol_0.s@ == v@,  // [C20.value.symbol]
         r is Ok ==> old(self).non_native_type is None || is_symbol(old(self).non_native_type),
+//@@ end
+
+//@@ fn file=serde_amqp/src/value/ser.rs impl=`~ser::Serializer for &'a mut Serializer` name=serialize_i64 as=value_serialize_i64
+//@@ selfmut
+//@@ ret Result<Value, VError>
+//@@ subst `Value::Timestamp(Timestamp::from(v))` => `timestamp_value(v)` rule=R16
+//@@ subst `Error::InvalidValue` => `VError::InvalidValue` rule=R11
+//@@ spec
+    ensures
+        r is Ok ==> final(self).non_native_type is None,                                                      // [C20.value.marker-cleared] the timestamp marker is one-shot in the value tree too
+        r is Ok && old(self).non_native_type is None ==> r->Ok_0 == Value::Long(v),
+        r is Ok && old(self).non_native_type == Some(NonNativeType::Timestamp) ==> r->Ok_0 == Value::Timestamp(v),   // [C20.value.timestamp]
+//@@ end
+
+//@@ fn file=serde_amqp/src/value/ser.rs impl=`~ser::Serializer for &'a mut Serializer` name=serialize_bytes as=value_serialize_bytes
+//@@ selfmut
+//@@ qmark
+//@@ orsplit
+//@@ ret Result<Value, VError>
+//@@ subst `Value::Binary(ByteBuf::from(v.to_vec()))` => `binary_value(v)` rule=R16
+//@@ subst `Value::Decimal32(Dec32::try_from(v)?)` => `fixed_value(0, v)?` rule=R16
+//@@ subst `Value::Decimal64(Dec64::try_from(v)?)` => `fixed_value(1, v)?` rule=R16
+//@@ subst `Value::Decimal128(Dec128::try_from(v)?)` => `fixed_value(2, v)?` rule=R16
+//@@ subst `Value::Uuid(Uuid::try_from(v)?)` => `fixed_value(3, v)?` rule=R16
+//@@ subst `use serde::Deserialize; let reader = SliceReader::new(v); let mut de = crate::de::Deserializer::new(reader); let value = Value::deserialize(&mut de)?; Ok(value)` => `lazy_to_value(v)` rule=R9
+//@@ subst `Error::InvalidValue` => `VError::InvalidValue` rule=R11
+//@@ spec
+    ensures
+        r is Ok && !(old(self).non_native_type == Some(NonNativeType::LazyValue)) ==> final(self).non_native_type is None,   // [C20.value.marker-cleared] uuid / decimal markers are one-shot: the value of a map entry whose key was a uuid is what IT is (a binary stays a binary), as when going through bytes
+        r is Ok && old(self).non_native_type is None ==> r->Ok_0 == Value::Binary(v@),
+        r is Ok && old(self).non_native_type == Some(NonNativeType::Uuid) ==> r->Ok_0 == Value::Uuid(v@),             // [C20.value.uuid]
+        r is Ok && old(self).non_native_type == Some(NonNativeType::Dec32) ==> r->Ok_0 == Value::Decimal32(v@),
+        r is Ok && old(self).non_native_type == Some(NonNativeType::Dec64) ==> r->Ok_0 == Value::Decimal64(v@),
+        r is Ok && old(self).non_native_type == Some(NonNativeType::Dec128) ==> r->Ok_0 == Value::Decimal128(v@),
 //@@ end
 }
 
